@@ -33,18 +33,38 @@ MODE = {(False, False): 'eager', (True, False): 'lazy', (False, True): 'cache_on
 
 
 def locate(ev, clause):
-    parts = dict(p.split('=') for p in clause.split('|')[1:] if '=' in p)
-    if not parts:
-        return None, None, None
-    h = ev['hists'][int(parts['h']) - 1]
-    r = h['runs'][int(parts['r']) - 1]
-    return h, r, r['ops'][int(parts['o']) - 1]
+    """(history, run, op) named by a reject clause; total: parts a clause does not name are None.
+    Clause shapes printed by Trace_Alleles: <c>|h=..|r=..|o=.. (a lookup), <c>_constructor|h=.. (history level), <c> (event level)."""
+    parts = {}
+    for p in clause.split('|')[1:]:
+        if '=' in p:
+            k, v = p.split('=', 1)
+            if v.isdigit():
+                parts[k] = int(v)
+    h = r = o = None
+    try:
+        if 'h' in parts:
+            h = ev['hists'][parts['h'] - 1]
+        if h is not None and 'r' in parts:
+            r = h['runs'][parts['r'] - 1]
+        if r is not None and 'o' in parts:
+            o = r['ops'][parts['o'] - 1]
+    except (IndexError, KeyError, TypeError):
+        pass
+    return h, r, o
 
 
 def key_fn(ev, clause):
     base = clause.split('|')[0]
     h, r, o = locate(ev, clause)
-    if r is None:
+    if h is not None and r is None:
+        # history-level clause (the constructor of some instance raised): label with the first such run (label only)
+        bad = [x for x in h['runs'] if x.get('raised', 'none') != 'none']
+        if bad:
+            x = bad[0]
+            return '|'.join([base, MODE[(x['lazy'], x['cache'])]] + ([] if x['phased'] else ['unphased']) + [str(x['raised'])])
+        return base
+    if r is None or o is None:
         return base
     mode = MODE[(r['lazy'], r['cache'])]
     ri = h['runs'].index(r)
@@ -57,13 +77,22 @@ def key_fn(ev, clause):
     oi = [k for k, q in enumerate(r['ops']) if q is o][0]
     after_mol = any(q['op'] == 'mol' and q['c'] == o['c'] for q in r['ops'][:oi])
     return '|'.join([base, mode] + ([] if r['phased'] else ['unphased']) + [o['op'], contig, ans]
+                    + (['raised_' + str(o['raised'])] if o.get('raised', 'none') != 'none' else [])
                     + (['after_other_config_used_the_cache'] if stale and r['cache'] else [])
                     + (['after_a_molecule_used_the_resolver'] if after_mol and not o['ans'] else []))
 
 
 def what_fn(ev, clause):
     h, r, o = locate(ev, clause)
-    if r is None:
+    if h is not None and r is None:
+        bad = [x for x in h['runs'] if x.get('raised', 'none') != 'none']
+        if bad:
+            x = bad[0]
+            return '%s: run %d of a %s history: AlleleResolver(vcf, lazyLoad=%s, use_cache=%s, phased=%s, select_samples=%s, ignore_conversions=%s) raised %s' % (
+                clause, h['runs'].index(x) + 1, h['kind'], x['lazy'], x['cache'], x['phased'],
+                x['sel']['s'] if x['sel']['explicit'] else None, x['ign'] or None, x['raised'])
+        return clause
+    if r is None or o is None:
         return clause
     site = [s for s in ev['sites'] if s['c'] == o['c'] and s['p'] == o['p']]
     ri = h['runs'].index(r)
